@@ -61,9 +61,9 @@ ROWS = {
          "T: guards, constants", "guards (salt lengths 0..max+3, every byte at every salt position, cost boundaries, option pools, lanes 63..255)", "guard translator"),
  "C15": ("randSymbols_length / _in_alphabet / symbol_map_bijective (salt as a function of entropy), sha1 randRounds window, rand_source_pure (regenerated import facts)",
          "T: facts, constants · H: Rand", "salt (2 000/50 000 calls per scheme: distinctness, coverage, 8σ bound; mixed histories; salt = f(entropy) under scripted entropy)", "OS entropy quality; the statistical run is a test"),
- "C16": ("encode = bit-level spec, decode∘encode = id ∀ byte strings and padding modes; C16Decode.decode_eq_ref: the model's Decode (three paths, padding, newlines, strict) = an independent declarative reference decoder for ALL texts, result bytes and error offsets; accepted_is_canonical_or_tolerated, never_silent_garbage, malformed_rejected, decode_never_panics; alphabets regenerated",
-         "T: symbol/quantum/assemble/length expressions (accumulator found by role, not by name), alphabets · H: loops",
-         "b64 (exhaustive 1-/2-byte tails, quanta sample, random strings to 4096, malformed edits incl. bytes ≥ 0xF0, both option orders)", "loop structure of the hand model tied by correspondence"),
+ "C16": ("encode = bit-level spec, decode∘encode = id ∀ byte strings and padding modes; C16Decode.decode_eq_ref: the model's Decode (three paths, padding, newlines, strict) = an independent declarative reference decoder for ALL texts, result bytes and error offsets; accepted_is_canonical_or_tolerated, never_silent_garbage, malformed_rejected, decode_never_panics; alphabets regenerated; B64IR.*_ir_eq_model: the BODIES of Encode, EncodeToString, EncodedLen, DecodeString, Decode, decodeQuantum, assemble32/64, DecodedLen regenerated from the Go source (loops, switch/fallthrough, break/continue, slicing, PutUint64/32, int wrap-around) and interpreted over a heap of byte buffers = the hand model, for all inputs, panics included",
+         "T: the nine function bodies (buffer IR), symbol/quantum/assemble/length expressions, alphabets · H: NewEncoding/WithPadding/Strict (constructors)",
+         "b64 (exhaustive 1-/2-byte tails, quanta sample, random strings to 4096, malformed edits incl. bytes ≥ 0xF0, both option orders)", "buffer-IR translator and interpreter; constructors tied by correspondence; int wrap of EncodedLen beyond 2^60 and negative padding runes are outside the hand model's domain (the programs cover them)"),
  "C17": ("enc_chunks_eq_oneshot ∀ chunkings; dec_fragmentation_eq_oneshot ∀ fragmentations; enc_fault_prefix_sticky, dec_err_sticky", "H",
          "stream (all compositions ≤ 9, random chunkings, caller buffers 1..4096, every fault position × kind)", "scripted reader/writer assumed well-behaved"),
  "C18": ("history_independent (getTypeInfo's result = cold-cache result for ALL call histories), forms_agree, reports_own_struct, invalid_tags_every_call", "measured facts + H",
